@@ -1,0 +1,10 @@
+//go:build verif
+
+// Contracts for the generated parser's syntax-tree accessors (read as text by /verif's govc;
+// comment-only). The tree is immutable during compilation: an accessor is a deterministic
+// function of the node.
+
+package parser
+
+//@ pure func (s IIfStatementContext) AllElseIfClause() []IElseIfClauseContext
+//@ pure func (s IBlockContext) AllStatement() []IStatementContext
